@@ -88,6 +88,26 @@ CHECKS = {
         "fork start method only; bounded sequence length; 'promptly' = no dead-lock state and return within the watchdog.",
         "DESIGN.md#c13",
     ),
+    "C05": (
+        True,
+        "exploration",
+        "postcondition monitor on TournamentSelection.select with recorded np.random.randint draws (module-attribute interposition) + rank/argmax reference + leaf-wise parent identification + alias sanitizer",
+        "Populations of real agents with adversarial fitness histories (ties, negatives, unequal lengths, sparse indices) "
+        "go through repeated select() calls; elite, size, per-member parent (best of the recorded draw), index freshness, "
+        "old-population fingerprints and old/new aliasing are checked on every call.",
+        "Ties accept any maximal agent; identical siblings are interchangeable parents; share_encoders=False agents.",
+        "DESIGN.md#c05",
+    ),
+    "C06": (
+        True,
+        "exploration",
+        "postcondition monitor on Mutations.mutation(rl_hp) with recorded torch.rand/randperm variates (module-attribute interposition) + arithmetic reference from the agent's own previous value + param_groups inspection",
+        "All 11 algorithms, populations built from one shared HyperparameterConfig / create_population / after selection, "
+        "random and boundary RLParameter ranges, up to 30 consecutive mutation rounds; value, range, number type, single "
+        "change, reported name, lr of every optimizer group and non-interference with other agents are checked per mutation.",
+        "Effect of batch_size / learn_step is read as the agent attribute (what the loops use).",
+        "DESIGN.md#c06",
+    ),
 }
 
 NOT_YET = "check not built yet in this round (framework under construction); see DESIGN.md section for the plan"
